@@ -122,6 +122,9 @@ type Scheme struct {
 	Key  string `json:"key"`
 	Kind string `json:"kind"` // bearer apiKeyHeader apiKeyQuery basic apiKeyCookie oauth2 openIdConnect
 	Name string `json:"name"`
+	// Spell: how the http auth scheme name is written ("" = bearer); the names are case-insensitive (RFC 7235), the
+	// IANA registry writes "Bearer"
+	Spell string `json:"spell,omitempty"`
 }
 
 type NamedSchema struct {
@@ -359,6 +362,9 @@ func secJSON(s Sec) []any {
 func schemeJSON(s Scheme) map[string]any {
 	switch s.Kind {
 	case "bearer":
+		if s.Spell != "" {
+			return map[string]any{"type": "http", "scheme": s.Spell}
+		}
 		return map[string]any{"type": "http", "scheme": "bearer"}
 	case "basic":
 		return map[string]any{"type": "http", "scheme": "basic"}
